@@ -532,22 +532,7 @@ def dump_stat(tab) -> str:
     return ' || '.join(out)
 
 
-def run_observed(job, light=False):
-    logic = registry(job['logic'])
-    prem = [wire.dec_sent(s) for s in job['premises']]
-    conc = wire.dec_sent(job['conclusion'])
-    arg = Argument(conc, prem)
-    opts = dict(job.get('opts') or {})
-    if job.get('max_steps') is not None:
-        opts['max_steps'] = job['max_steps']
-    if job.get('models'):
-        opts['is_build_models'] = True
-    tab = Tableau(**opts)
-    ob = Observer(tab, logic, arg, gen_rules(job['logic']), light=light)
-    tab.logic = logic
-    tab.argument = arg
-    if not ob.trunk_built:
-        ob.bad('C16:trunk:not-built', 'setting logic and argument did not build the trunk')
+def _drive(tab, ob, job, light):
     if job.get('mode') == 'build':
         tab.build()
     else:
@@ -566,11 +551,39 @@ def run_observed(job, light=False):
             if guard > 5000:
                 tab.finish()
                 break
+
+
+def run_observed(job, light=False):
+    logic = registry(job['logic'])
+    prem = [wire.dec_sent(s) for s in job['premises']]
+    conc = wire.dec_sent(job['conclusion'])
+    arg = Argument(conc, prem)
+    opts = dict(job.get('opts') or {})
+    if job.get('max_steps') is not None:
+        opts['max_steps'] = job['max_steps']
+    if job.get('models'):
+        opts['is_build_models'] = True
+    tab = Tableau(**opts)
+    ob = Observer(tab, logic, arg, gen_rules(job['logic']), light=light)
+    tab.logic = logic
+    tab.argument = arg
+    if not ob.trunk_built:
+        ob.bad('C16:trunk:not-built', 'setting logic and argument did not build the trunk')
+    ob.raised = None
+    try:
+        _drive(tab, ob, job, light)
+    except Exception as ex:  # noqa  (reported with whatever the oracle saw before)
+        tb = traceback.extract_tb(ex.__traceback__)
+        where = next((f'{f.filename.split("/")[-1]}:{f.name}' for f in reversed(tb) if str(common.REPO) in f.filename), '?')
+        ob.raised = dict(error=f'{type(ex).__name__}: {ex}', where=where, traceback=traceback.format_exc()[-3000:],
+                         repo=any(str(common.REPO) in f.filename for f in tb))
     return tab, ob
 
 
 def run_job(job):
     tab, ob = run_observed(job)
+    if ob.raised is not None:
+        return dict(id=job['id'], raised=ob.raised, viol=[list(v) for v in ob.viol], nsteps=ob.k)
     ob.check_finished()
     out = dict(id=job['id'], nsteps=ob.k, nbranches=len(tab), nevents=ob.nevents,
                viol=[list(v) for v in ob.viol],
